@@ -4,7 +4,7 @@ PLAN = {
     "manifest": {
         "technique": "Kani/CBMC complete harnesses for shard selection (unsafe get_unchecked in bounds for every hash, shard counts 1..8) + Verus: bit-vector lemma for every power-of-two shard count and get_or_create/delete/get glue over ASSUMED hashbrown raw-entry and RwLock specifications",
         "text": "The registry's representation invariant (three shard vectors of equal power-of-two length, mask = len-1) is established by the constructors and makes every unchecked index in bounds for every 64-bit hash; the selected shard depends only on the key's hash and kind. The get-or-create / delete / get glue is proved, over assumed map and lock specifications, to operate on the entry of the key's equality class present under the lock at that moment, creating storage only when absent.",
-        "note": "hashbrown raw-entry API, std RwLock and Key's Hash/Eq consistency (C03) are assumed; Kani cannot execute hashbrown (measured), so map behaviour itself is not verified; racing creators/deleters are covered only through 'the map under a freshly acquired lock is arbitrary'; visit/retain/clear/get_*_handles iteration is hashbrown's contract.",
+        "note": "hashbrown raw-entry API, std RwLock and Key's Hash/Eq consistency (C03) are assumed; Kani cannot execute hashbrown (measured), so map behaviour itself is not verified; racing creators/deleters are covered only through 'the map under a freshly acquired lock is arbitrary'; Registry::clear is proved to reach every shard of every kind once (ghost accounting spliced after the real `.clear()` statements; what clear does to a map is hashbrown's contract); visit/retain/get_*_handles iteration is hashbrown's contract and not covered.",
     },
     "min_obligations": {"quick": 15, "thorough": 15},
     "assumptions": [
